@@ -293,13 +293,21 @@ def cbCount (log : Log) (c n i b : Nat) : Nat :=
      | some (.cb c' n' _) => c' == c && n' == n
      | _ => false))).length
 
-/-- for every successful connect that is not the first one: between it and the return of the call that made it,
-each callback registered at that moment runs exactly once -/
+/-- position of the next connect attempt of `c` after i (`log.length` if there is none) -/
+def nextConnectBy (log : Log) (c i : Nat) : Nat :=
+  ((List.range log.length).find? (fun m => decide (i < m) &&
+    (match evAt log m with
+     | some (.connect c' _ _) => c' == c
+     | _ => false))).getD log.length
+
+/-- for every successful connect that is not the first one: between it and the return of the call that made it (or
+the next attempt of that call, if it has to reconnect once more), each callback registered at that moment runs
+exactly once -/
 def callbacksOnceB (cbs : List Nat) (log : Log) : Bool :=
   allBelow log.length fun i =>
     match okConnectBy log i with
     | some c =>
-      let b := spanEnd log c i
+      let b := min (spanEnd log c i) (nextConnectBy log c i)
       !((List.range i).any fun i0 => (okConnectBy log i0).isSome) || !(decide (b < log.length)) ||
       (registeredAt cbs log i).all fun n => cbCount log c n i b == 1
     | none => true
